@@ -5,6 +5,7 @@ NOINLINE = [DE + r'get_function_object_int\(', DE + r'get_object\(', DE + r'get_
             r'std::map<.*>::(find|insert|insert_or_assign|erase|operator\[\]|count|emplace|clear|at)[<(]', r'std::_Rb_tree<.*>::_M_(find_tr|lower_bound_tr|insert_|emplace|erase|get_insert)',
             r'std::set<.*>::(find|insert|count|erase)[<(]',
             r'chaiscript::utility::QuickFlatMap<.*>::(find|count|insert|insert_or_assign|operator\[\]|at|grow)[<(]',
+            r'^std::vector<std::pair<std::__cxx11::basic_string<.*>::(vector|operator=)\(std::vector<.* const&\)', r'^std::map<.*>::(map|operator=)\(std::map<.* const&\)', r'^std::_Rb_tree<.*>::(_Rb_tree|operator=)\(std::_Rb_tree<.* const&\)',
             r'AST_Node_Impl<.*>::eval\(', r'chaiscript::AST_Node::get_bool_condition', r'AST_Node_Impl<.*>::get_scoped_bool_condition', r'chaiscript::void_var', r'chaiscript::const_var', DE + r'(new_scope|pop_scope|new_stack|pop_stack|new_function_call|pop_function_call|save_function_params|add_object|add_get_object|call_function|call_member|get_stack_data|function_exists|get_function_object)\(',
             r'chaiscript::detail::Dispatch_State::\w+\(', r'chaiscript::dispatch::Param_Types::', r'Arg_List_AST_Node<.*>::get_arg_', r'chaiscript::Boxed_Value::Boxed_Value<', r'chaiscript::Boxed_Value::Object_Data::get', r'chaiscript::Boxed_Value::~Boxed_Value',
             r'chaiscript::dispatch::dispatch\(', r'chaiscript::Boxed_Number::', r'chaiscript::boxed_cast<', r'chaiscript::detail::Stack_Holder::', r'chaiscript::Boxed_Value::(assign|type_match|get_attr|copy_attrs|clone_attrs|reset_return_value)\(', r'clone_if_necessary', r'Function_Push_Pop::', r'Scope_Push_Pop::', r'Stack_Push_Pop::',
